@@ -50,6 +50,8 @@ def predicate(h):
     out = []
     for i, (op, res) in enumerate(zip(h["ops"], h["results"])):
         info = h["infos"][i]
+        if info.get("alias") and res[0] == "ok":
+            out.append(("an accepted link does not lead to the entity that was linked", i, {"op": op, "what": info["alias"]}))
         if info["cross_block"]:
             out.append(("a link list / feature holds an entity of another block", i, {"op": op, "foreign_ids": len(info["cross_block"])}))
     # at every reopen and at the end: every object reached through a link answers every read accessor (reflection over the
